@@ -15,7 +15,56 @@ var builtinNames = func() map[string]bool {
 	return m
 }()
 
+// overridable: built-in helpers whose plain lower-case name a funcs file may define again. A definition in the funcs
+// file then IS the function of that name ("{name a b ..} equals the body with {0}, {1} .. replaced"): every call of it,
+// in later definitions and at call sites, means the file's body. Cases in which the built-in meaning of the same name
+// is also used are discarded (builtinUse), so the reference stays unambiguous.
+var overridable = func() []string {
+	var out []string
+	for _, h := range table {
+		ok := h.n != ""
+		for _, ch := range h.n {
+			if ch < 'a' || ch > 'z' {
+				ok = false
+			}
+		}
+		if ok {
+			out = append(out, h.n)
+		}
+	}
+	return out
+}()
+
+// builtinUse reports whether the tree calls, as a built-in, a name the funcs file redefines.
+func builtinUse(n *Node, redefined map[string]bool) bool {
+	if n == nil || len(redefined) == 0 {
+		return false
+	}
+	if n.K == nCall && !n.User && redefined[n.S] {
+		return true
+	}
+	for _, a := range n.A {
+		if builtinUse(a, redefined) {
+			return true
+		}
+	}
+	return false
+}
+
 func (g *gen) funcName(taken map[string]bool) string {
+	if g.redefine && g.r.Intn(2) == 0 {
+		for try := 0; try < 8; try++ {
+			s := overridable[g.r.Intn(len(overridable))]
+			if !taken[s] {
+				taken[s] = true
+				if g.redefined == nil {
+					g.redefined = map[string]bool{}
+				}
+				g.redefined[s] = true
+				return s
+			}
+		}
+	}
 	for {
 		n := g.r.Range(2, 7)
 		var sb strings.Builder
